@@ -8,6 +8,7 @@ COMMON_ASSUME = [
 
 PROPS = {}
 NOT_APPLICABLE = {}
+PROBE_FLAGS = {}
 
 PROPS["C01"] = dict(
     targets=[dict(name="C01", src="vp/props/C01.cpp", maxlen=12 + 4*12)],
@@ -44,4 +45,21 @@ PROPS["C02"] = dict(
           "cursor home()[o]... at every ordinal tuple. non-trivial = final view not compact row-major and >= 2 elements (backward steps, offset subtraction and iterator "
           "assignment are exercised in every case); distinct = 64-bit hash of the decoded case text"),
     assumptions=COMMON_ASSUME + ["roots with zero elements (null data pointer) are excluded from the iterator laws and counted (excluded_null_root): end() offsets the null pointer, see known_findings.txt"],
+)
+
+PROPS["C07"] = dict(
+    targets=[dict(name="C07", src="vp/props/C07.cpp", maxlen=12 + 3*6)],
+    quick=dict(cases=2500, floor=20000),
+    thorough=dict(cases=60000, floor=400000),
+    level="exploration",
+    level_text=("Generated pairs and triples of operands of equal dimensionality 0..4, equal or perturbed extents, few element mutations over {0,1,2}, each operand independently "
+                "realised as array / array_ref / view / transposed, rotated, padded or strided storage / array<long> / const-pointer view; every relational operator is compared "
+                "with a nested-vector model and the order laws are checked on triples. Bounded exploration; cannot prove absence."),
+    technique="differential testing against a nested-vector reference model + algebraic order laws on generated operand triples (rapidcheck)",
+    rule=("case = D in 0..4, extents of A from {0..4}, B and C = A's extents with probability 1/2 else one extent +-1, elements = a position pattern over {0,1,2} plus up to 6 "
+          "point mutations, realisation kind per operand from 9 kinds; oracle = model: == iff same extents and equal elements, != its negation, <,<=,>,>= recursive lexicographic "
+          "(proper prefix smaller), trichotomy, irreflexivity, asymmetry, transitivity of < and ==; for operands with zero elements only (a==b)==!(a!=b). "
+          "non-trivial = no operand empty, A has >= 2 elements and (A,B realised with different layouts or shapes differ); distinct = hash of decoded case text"),
+    assumptions=COMMON_ASSUME[:1] + ["operands are zero-based (index bases are C19's subject)", "ordering operators between views of different element or pointer-constness types are not instantiated (mixed-type < is ambiguous or absent in the library); those pairs take part in == / != only",
+                 "0-D: array<T,0> == array<T,0> does not compile on the pinned tree (known finding); the forms that compile (A() op B(), ordering of arrays, array == element) are checked"],
 )
